@@ -242,6 +242,17 @@ Definition sd_strftime (ijd : Z) : res (list ascii) :=
       Ok (pad4 y ++ "-" :: pad2 mo ++ "-" :: pad2 d ++ " " :: pad2 h ++ ":" :: pad2 mi ++ ":" ::
           pad2 (k / 1000) ++ "." :: pad3 (k mod 1000) ++ utc_suffix)))).
 
+(* "YYYY-MM-DD HH:MM:SS.mmm+00:00" of an instant given in microseconds (a whole millisecond),
+   in exact integer arithmetic: what sd_strftime prints for iJD = EPOCH_MS + v/1000
+   (Proofs/SqliteDateText.v) *)
+Definition sd_ms_text (v : Z) : list ascii :=
+  let days := v / day_us in
+  let rem := v mod day_us in
+  let '(y, m, d) := civil_from_days days in
+  pad4 y ++ "-" :: pad2 m ++ "-" :: pad2 d ++ " " :: pad2 (rem / 3600000000) ++ ":" ::
+  pad2 (rem / 60000000 mod 60) ++ ":" :: pad2 (rem / 1000000 mod 60) ++ "." ::
+  pad3 (rem / 1000 mod 1000) ++ utc_suffix.
+
 (* ------------------------------------------------------------------------- *)
 (* the whole expression on a row (timestamp TEXT, duration cell) *)
 
